@@ -41,7 +41,7 @@ ASSUMPTIONS = [
 ]
 REQUIRED_CLAUSES = [
     "parse-props", "parse-lists", "parse-objects",
-    "cursor-is-last-sort", "extractor-props", "next-request-cursor", "pit-id-propagated",
+    "cursor-is-last-sort", "extractor-props", "next-request-cursor", "pit-id-propagated", "next-invocation-starts-over",
     "after-key", "next-request-after",
     "paginated-run", "composite-run", "scroll-run", "page-accounting", "hits-total", "took-sum", "timed-out-any", "pages-retrieved",
     "scroll-id", "scroll-stops-on-empty-page", "search-detailed",
@@ -332,6 +332,17 @@ def check_paginated(sink, case):
         want = [P["pit0"]] + [d.get("pit_id") for d in served[: n - 1]]
         if sent != want or final_pit != served[n - 1].get("pit_id"):
             add("pit-id-propagated", f"pit ids sent {sent} / kept {final_pit!r}, expected {want} / {served[n - 1].get('pit_id')!r}", {"expected": want, "outcome": {"value": sent}})
+    if not problems:
+        # the schedule hands the SAME params dict (and body) to every invocation of the operation (SearchParamSource.params() returns one object):
+        # the next invocation has no last hit yet, its first request carries no cursor - also when this one ended at its page limit
+        stub2 = StubES([raw(p) for p in pages], FILLER_SEARCH)
+        res2 = outcome_of(lambda: run(_run_query(stub2, params, "open-pit" if pit else None, P.get("pit0"))))
+        sink.clause("next-invocation-starts-over")
+        if "exception" not in res2 and stub2.requests:
+            got = stub2.requests[0]["body"].get("search_after", "<absent>")
+            if got != "<absent>":
+                add("next-invocation-starts-over", f"the first request of the NEXT invocation (same params, {n} of {len(pages)} pages retrieved before, pages={P['pages']}) carries search_after={json.dumps(plain(got))[:120]}",
+                    {"page": -1, "expected": None, "outcome": {"value": plain(got)}, "limit_reached": P["pages"] != "all"})
     sink.clause("pages-retrieved")
     tv = total0[0]
     limit = 10**9 if P["pages"] == "all" else int(P["pages"])
@@ -420,6 +431,15 @@ def check_composite(sink, case):
         want = [P["pit0"]] + [d.get("pit_id") for d in served[: n - 1]]
         if sent != want or final_pit != served[n - 1].get("pit_id"):
             add("pit-id-propagated", f"pit ids sent {sent} / kept {final_pit!r}, expected {want} / {served[n - 1].get('pit_id')!r}", {"expected": want, "outcome": {"value": sent}})
+    if not problems:
+        stub2 = StubES([raw(p) for p in pages], filler)
+        res2 = outcome_of(lambda: run(_run_query(stub2, params, "open-pit" if pit else None, P.get("pit0"))))
+        sink.clause("next-invocation-starts-over")
+        if "exception" not in res2 and stub2.requests:
+            got = outcome_of(lambda: composite_of(stub2.requests[0]["body"], path).get("after", "<absent>"))
+            if got != {"value": "<absent>"}:
+                add("next-invocation-starts-over", f"the first request of the NEXT invocation (same params, {n} of {len(pages)} pages retrieved before, pages={P['pages']}) carries after={short(got)}",
+                    {"page": -1, "expected": None, "outcome": plain(got), "limit_reached": P["pages"] != "all"})
     sink.clause("pages-retrieved")
     limit = 10**9 if P["pages"] == "all" else int(P["pages"])
     exhausted = next((i + 1 for i, d in enumerate(docs) if ref_after_key(d, path) is None), len(docs) + 1)
